@@ -90,6 +90,7 @@ pub fn run(ctx: &Ctx) -> EvidenceMeta {
         .collect();
     let n = items.len();
     ctx.enumerate("bounded-exhaustive", &items, |h, st| test_history(&PROP, h, st));
+    ctx.enumerate("bounded-exhaustive-noeffect-relation", &items, |h, st| no_effect_relation(Relation::NoEffect, &with_polls(h.clone()), st));
     {
         let mut st = ctx.new_stats();
         st.exhaustive_parts.push(format!(
@@ -99,6 +100,12 @@ pub fn run(ctx: &Ctx) -> EvidenceMeta {
         ctx.merge_stats(st);
     }
     drive(ctx, &PROP, 25_000, 800_000);
+    ctx.proptest(
+        "noeffect-relation",
+        ctx.n(12_000, 400_000),
+        || crate::agentsim::history_strategy(Profile::Lifecycle, 50),
+        |h: &History, st| no_effect_relation(Relation::NoEffect, &with_polls(h.clone()), st),
+    );
     EvidenceMeta {
         rule: "call histories over {send (4 ids, all classes, sealed/unsealed, 3 destinations), send+configure_timeout, advance (0, ms, to \
                the next wake-up -d / exactly / +d, far), poll, drain, response (known/unknown id, success/error, unsigned / signed with \
@@ -106,7 +113,10 @@ pub fn run(ctx: &Ctx) -> EvidenceMeta {
                set_remote_credentials}, both transports, every history followed by a forced drain to quiescence; plus all histories up to a \
                depth bound over a reduced alphabet. Oracle: reference agent model with a set-valued prediction for poll (any serviceable \
                transaction's event is correct), compared after every call; only discrepancies about the transaction life cycle are judged \
-               here. Non-trivial = history with >= 2 transactions outstanding together, a response after completion, or an id reuse; \
+               here. Metamorphic relation (every poll a drain, so map order does not matter): the calls the property says change nothing \
+               (refused duplicate send, response for an id that is not outstanding, incoming request/indication, send of a non-request) are \
+               replaced by no-ops and the history re-executed at the same instants: all other replies, wake-up instants and outstanding \
+               flags must be identical. Non-trivial = history with >= 2 transactions outstanding together, a response after completion, or an id reuse; \
                distinct by history."
             .into(),
         assumptions: vec![
@@ -120,6 +130,10 @@ pub fn run(ctx: &Ctx) -> EvidenceMeta {
     }
 }
 
-pub fn replay(_check: &str, case: &Value, st: &mut Stats) -> Result<TestResult, String> {
+pub fn replay(check: &str, case: &Value, st: &mut Stats) -> Result<TestResult, String> {
+    if check.contains("noeffect-relation") {
+        let h: History = parse_case(case)?;
+        return Ok(no_effect_relation(Relation::NoEffect, &with_polls(h), st));
+    }
     replay_history(&PROP, case, st)
 }
